@@ -5,7 +5,7 @@ from streams import kv
 from streams.kv import hx, keyof, parse_dump, T0
 
 HEADER = 4
-REQUIRED_SHAPES = ["bound_checked", "overwrite", "delete_present", "compaction_step", "done_checked_below_threshold", "drain_needs_several_batches", "tables_bounded_by_keys_mixed_sizes"]
+REQUIRED_SHAPES = ["cold_table_pins_the_front", "bound_checked", "overwrite", "delete_present", "compaction_step", "done_checked_below_threshold", "drain_needs_several_batches", "tables_bounded_by_keys_mixed_sizes"]
 
 
 class Oracle(kv.Oracle):
@@ -43,6 +43,17 @@ class Oracle(kv.Oracle):
             return None
         if f[0] not in ("stats", "clock", "get", "scan", "range", "rangehkey"):
             self.just_done = False
+        if f[0] == "stats" and getattr(self, "cold_bound", None):
+            # cold keys pin the oldest table while hot keys churn, compaction runs to completion after every round and no
+            # table is ever idle: a roll-over allocates only when no recycled table is left, and then every table is either
+            # one that compaction left with > 0.6 T - E live bytes, or one filled during the current round
+            alloc, inuse, garbage, length, ntab = [int(x) for x in reply.split()]
+            self.hit("cold_table_pins_the_front")
+            if ntab > self.cold_bound:
+                return ("hot keys overwritten in rounds, compaction completed after every round, a few cold keys in the oldest table: %d tables "
+                        "(%d bytes allocated) for %d present keys and %d live bytes; at most %d tables are ever needed at once: "
+                        "recycled tables are not used again" % (ntab, alloc, length, inuse, self.cold_bound))
+            return None
         if f[0] == "stats" and self.expect_bound.pop(f[1], False):
             r = [int(x) for x in reply.split()]
             alloc, inuse, garbage, length, ntab = r
@@ -166,8 +177,51 @@ class Gen(kv.Gen):
         yield "get a 1"
         yield "get a 2"
 
+    def cold(self, orc):
+        """directed: a few keys written once sit in the oldest table for ever (less than 40 % of it is garbage), other keys
+        are overwritten round after round; compaction runs to completion after every round; nothing is ever idle."""
+        r = self.rng
+        self.T, self.idle = r.choice([512, 1024]), 10**15
+        self.maxentry = E = self.T // 8
+        orc.maxentry = E
+        self.backup = r.random() < 0.5
+        ncold, nhot, per_round = r.choice([6, 7]), r.choice([2, 4, 6]), r.choice([12, 20])      # 6 full-size entries: 75 % of a table
+        yield "watchdog 60s"
+        yield "clock %d" % self.now
+        yield "kv.new a %d %d" % (self.T, self.idle)
+        yield "kv.new b %d %d" % (self.T, self.idle)
+
+        def put(hk, n):
+            self.tsctr += 1
+            k = keyof(hk)
+            v = bytes([self.tsctr % 250 + 1]) * n
+            if self.backup:
+                return "putraw a %d %s %s 0 %d %d" % (hk, hx(k), hx(v), self.tsctr, self.now)
+            return "put a %d %s %s 0 %d" % (hk, hx(k), hx(v), self.tsctr)
+
+        for hk in range(100, 100 + ncold):
+            yield put(hk, E - 29 - len(keyof(hk)) - r.randint(0, 3))
+        live_tables = ((ncold + nhot) * E) // ((6 * self.T) // 10 - E) + 3
+        round_tables = -(-per_round * E // (self.T - E)) + 1
+        for rnd in range(45):
+            for _ in range(per_round):
+                hk = r.randrange(nhot)
+                yield put(hk, r.randint(E // 2, E - 29 - len(keyof(hk))))
+            for _ in range(600):
+                rep = yield "compact a"
+                if not rep.startswith("more"):
+                    break
+            orc.cold_bound = live_tables + round_tables
+            yield "stats a"
+            orc.cold_bound = None
+        for hk in list(range(nhot)) + list(range(100, 100 + ncold)):
+            yield "get a %d" % hk
+
     def episode(self, orc, nops):
         self.orc_hit = orc.hit
+        if getattr(self, "ep", -1) == 3:
+            yield from self.cold(orc)
+            return
         if getattr(self, "ep", -1) == 1:
             yield from self.big(orc)
             return
